@@ -1387,6 +1387,17 @@ def cache_correspond(ctx: Ctx, n_hist: int):
                         ctx.witness("cache:qulacs.convert_operator", f"estimate of the bare label {lab!s} through the operator cache is wrong",
                                     {"ops": ops[:], "label": str(lab), "circuit": [gate_struct(g, None, None) for g in gates]},
                                     {"got": str(lv), "want": str(lw)})
+                    # ... and the bare label handed to convert_operator itself
+                    try:
+                        ql = qop.convert_operator(lab, nq)
+                        lt = sorted((tuple(sorted(zip(ql.get_term(i).get_index_list(), ql.get_term(i).get_pauli_id_list()))), complex(ql.get_term(i).get_coef()))
+                                    for i in range(ql.get_term_count()))
+                    except Exception as e:  # noqa: BLE001
+                        lt = "err:" + type(e).__name__
+                    ctx.traces += 1
+                    if lt != [(tuple(sorted((int(q), int(pp)) for q, pp in lab)), 1 + 0j)]:
+                        ctx.witness("cache:qulacs.convert_operator", f"convert_operator({lab!s}, {nq}) is not the single term 1*{lab!s}",
+                                    {"ops": ops[:], "label": str(lab), "n_qubits": nq}, {"got": str(lt)[:300]})
                 qo = qop.convert_operator(objs[h], nq)
                 got_terms = sorted(
                     (tuple(sorted(zip(qo.get_term(i).get_index_list(), qo.get_term(i).get_pauli_id_list()))), complex(qo.get_term(i).get_coef()))
@@ -2097,7 +2108,7 @@ def exhaustive(ctx: Ctx, depth: int, limit: int, families=("np", "par", "lm")):
             models = model_run(ctx, chunk)
             for ops, m in zip(chunk, models):
                 real, flags = run_flags(ops)
-                report_flags(ctx, ops, flags)
+                report_flags(ctx, ops, flags, all(m["safe"]))
                 cr = canon_transcript(real, False, with_hash=True, ops=ops)
                 vops, vreal = model_view(ops, real)
                 crm = canon_transcript(vreal, False, ops=vops)
@@ -2152,14 +2163,18 @@ def gen(ctx: Ctx):
         return info
 
 
-def report_flags(ctx: Ctx, ops, flags) -> int:
+# restatements that compare with a private copy: only meaningful while no known aliasing step has tied handles together
+FLAGS_NEEDING_ALIAS_FREE = ("iadd-vs-extend",)
+
+
+def report_flags(ctx: Ctx, ops, flags, safe: bool) -> int:
     """an observer of the real objects contradicted the direct restatement of its documented meaning"""
     seen = set()
     for i, key, what, detail in flags:
-        if key in seen:
+        if key in seen or (key in FLAGS_NEEDING_ALIAS_FREE and not safe):
             continue
         seen.add(key)
-        small = shrink(ops[:i], first_flag(key))
+        small = ops[:i] if key in FLAGS_NEEDING_ALIAS_FREE else shrink(ops[:i], first_flag(key))
         ctx.witness("observer:" + key, what, {"history": small}, detail)
     return len(seen)
 
@@ -2205,7 +2220,7 @@ def correspond(ctx: Ctx, n_hist: int, length: int):
     models = model_run(ctx, hists)
     n_safe = n_unsafe_diff = 0
     for ops, (real, flags), m in zip(hists, reals, models):
-        report_flags(ctx, ops, flags)
+        report_flags(ctx, ops, flags, all(m["safe"]))
         oracle = run_ops(ops, True)
         vops, vreal = model_view(ops, real)
         _, voracle = model_view(ops, oracle)
@@ -2277,7 +2292,7 @@ def search(ctx: Ctx, budget_s: float):
         models = model_run(ctx, [b[0] for b in batch])
         for (ops, real, flags), m in zip(batch, models):
             n += 1
-            found += report_flags(ctx, ops, flags)
+            found += report_flags(ctx, ops, flags, all(m["safe"]))
             d = real_vs_oracle(ops)
             if d is None:
                 continue
@@ -2320,10 +2335,10 @@ def run(ctx: Ctx, replay=None) -> int:
     escalate = (not ok) or bool(info["py_unknown"])
     if driver_ok:
         with ctx.timed("correspond"):
-            correspond(ctx, ctx.n(200, 2500), ctx.n(36, 60))
-            cache_correspond(ctx, ctx.n(100, 1500))
-            mapping_value_histories(ctx, ctx.n(400, 6000))
-            measure_histories(ctx, ctx.n(200, 3000))
+            correspond(ctx, ctx.n(360, 2500), ctx.n(36, 60))
+            cache_correspond(ctx, ctx.n(150, 1500))
+            mapping_value_histories(ctx, ctx.n(600, 6000))
+            measure_histories(ctx, ctx.n(300, 3000))
             state_ctor_checks(ctx)
             rejected_call_checks(ctx)
             if not ctx.quick():
@@ -2331,7 +2346,7 @@ def run(ctx: Ctx, replay=None) -> int:
                 exhaustive(ctx, depth=5, limit=10 ** 6, families=("np",))  # the family with the findings: new + 4 operations
         escalate = escalate or bool(ctx.disagreements)
         with ctx.timed("search"):
-            search(ctx, (4 if ctx.quick() else 60) * (6 if escalate else 1))
+            search(ctx, (6 if ctx.quick() else 60) * (6 if escalate else 1))
     else:
         ctx.notes.append("the model driver does not build with the current Generated shapes; correspondence skipped")
     keys: dict = {}
